@@ -416,6 +416,7 @@ class Interp:
         self.depth = 0
         self.trace = []
         self.fn_stack = []
+        self._dyn_cache = {}
         self.concrete_floats = False
         self.trace_unknown = bool(os.environ.get("INTERP_TRACE"))
         self.deref_impls = {}
@@ -1320,14 +1321,17 @@ class Interp:
             t = self.type_of(recv)
             if t:
                 imp = "<%s as %s>::%s" % (norm(t), trait, name)
-                g = self.F.fns.get(imp)
-                if g is None:
-                    for p_, ff in self.F.fns.items():
-                        if p_.startswith("<") and p_.endswith(">::" + name) and norm(p_) == imp:
-                            g = ff
-                            break
-                if g is not None and "body" in g:
-                    return self.call_fn(g["path"], [recv] + args)
+                if imp not in self._dyn_cache:
+                    g = self.F.fns.get(imp)
+                    if g is None and not trait.startswith(("std::", "core::", "alloc::")):
+                        for p_, ff in self.F.fns.items():
+                            if p_.startswith("<") and p_.endswith(">::" + name) and norm(p_) == imp:
+                                g = ff
+                                break
+                    self._dyn_cache[imp] = g["path"] if g is not None and "body" in g else None
+                tgt = self._dyn_cache[imp]
+                if tgt is not None:
+                    return self.call_fn(tgt, [recv] + args)
         return self.builtin_method(name, cn, recv, args, n)
 
     def builtin_method(self, name, cn, recv, args, n):
